@@ -229,7 +229,11 @@ func absP1(c *psatoken.P1Claims) Obj {
 		o.Lifecycle = absInt(int64(*c.SecurityLifeCycle))
 	}
 	if c.NoSwMeasurements != nil {
-		o.NoSw = absInt(int64(*c.NoSwMeasurements))
+		f := *c.NoSwMeasurements
+		if f > 2147483647 { // TLC integers are 32 bits; a flag other than 1 carries no verdict anyway
+			f = 2147483647
+		}
+		o.NoSw = absInt(int64(f))
 	}
 	o.ImplID = absBytesP(c.ImplID)
 	o.BootSeed = absBytesP(c.BootSeed)
